@@ -148,6 +148,43 @@ def _power_law_running(F, R):
         atoms = [a for a, e in mono if a != ("const", "pi")]
         return c < 0 and len(atoms) == 1 and all(e == 1 for a, e in mono if a != ("const", "pi"))
 
+    def negative_multiple_structural(ex):
+        """the same for a coupling that is written out as an expression (an inlined alpha_s(mt) formula): ex is a product /
+        quotient whose numeric factors and powers of pi multiply to a negative number and whose remaining factors do not
+        depend on the scale -- the coupling expression itself is taken to be positive, as the opaque coupling atom is"""
+        fac = []
+
+        def flat(u, inv=False):
+            if u[0] in ("*",):
+                flat(u[1], inv)
+                flat(u[2], inv)
+            elif u[0] == "/":
+                flat(u[1], inv)
+                flat(u[2], not inv)
+            elif u[0] == "neg":
+                fac.append((("num", -1), False))
+                flat(u[1], inv)
+            else:
+                fac.append((u, inv))
+        flat(ex)
+        sign, rest = 1, []
+        for u, inv in fac:
+            try:
+                r = to_rat(u)
+                if not r.n.t or (len(r.n.t) == 1 and len(r.d.t) == 1 and
+                                 all(a == ("const", "pi") for a, e in list(r.n.t)[0]) and
+                                 all(a == ("const", "pi") for a, e in list(r.d.t)[0])):
+                    cval = (list(r.n.t.values())[0] if r.n.t else 0) / list(r.d.t.values())[0]
+                    if cval == 0:
+                        return False
+                    if cval < 0:
+                        sign = -sign
+                    continue
+            except (NotPolynomial, Exception):
+                pass
+            rest.append((u, inv))
+        return sign < 0 and len(rest) >= 1 and not any(has_scale(u) for u, inv in rest)
+
     for nm in ("calculate_mt_SM6_MSbar", "calculate_mb_SM6_MSbar", "calculate_mtau_SM6_MSbar"):
         f = F.fn("gm2calc::" + nm)
         ps = [p["name"] for p in f["params"]]
@@ -166,7 +203,7 @@ def _power_law_running(F, R):
                     continue
                 ok, why = False, "a branch is not of the form B * pow(scale/Q0, e): %s" % show(val)[:120]
                 break
-            if not negative_multiple_of_coupling(pl[2]):
+            if not negative_multiple_of_coupling(pl[2]) and not negative_multiple_structural(pl[2]):
                 ok, why = False, "the exponent %s is not -(c/pi) * coupling with c > 0" % show(pl[2])[:80]
                 break
             forms.append((fa, val, pl))
@@ -347,7 +384,9 @@ def run(F, R, tier):
     # producers
     gw = F.fn(AN + "get_ckm_from_wolfenstein")
     rets = [n for n in walk(gw["body"]) if n.get("k") == "ReturnStmt"]
-    ok = len(rets) == 1 and is_call(_peel(rets[0]["c"][0])) and (_peel(rets[0]["c"][0]).get("fn") or "").endswith("get_ckm_from_angles")
+    # every return (there may be several: guard clauses) hands back get_ckm_from_angles(...)
+    ok = len(rets) >= 1 and all(r_.get("c") and is_call(_peel(r_["c"][0])) and
+                                (_peel(r_["c"][0]).get("fn") or "").endswith("get_ckm_from_angles") for r_ in rets)
     R.check("R1", ok, "get_ckm_from_wolfenstein returns get_ckm_from_angles(...)", F.loc(gw),
             "Wolfenstein conversion does not return through the standard parametrisation", key="R1|wolfenstein")
     for nm, want in (("gm2calc::SM::set_ckm_from_wolfenstein", "get_ckm_from_wolfenstein"),
@@ -372,12 +411,21 @@ def run(F, R, tier):
     # R1c: the angles handed to the parametrisation are finite on every path
     Sw = Struct(gw)
     Rw = Renderer(gw, resolve_locals=False)
+    from .rules_c16 import _split_guard
     asg = [n for n in walk(gw["body"]) if n.get("k") == "BinaryOperator" and n.get("op") == "=" and
            strip_all(n["c"][0]).get("k") == "DeclRefExpr" and strip_all(n["c"][0]).get("rk") == "Var"]
+    # definitions in declaration form (`const double theta_13 = ...;` after a guard clause) count as well
+    for n in walk(gw["body"]):
+        if n.get("k") == "DeclStmt":
+            for d in n.get("decls", ()):
+                if d.get("init") is not None and d.get("name") in ("theta_13", "delta"):
+                    asg.append({"k": "BinaryOperator", "op": "=", "l": n.get("l"), "_stmt": n,
+                                "c": [{"k": "DeclRefExpr", "rk": "Var", "n": d.get("name"), "id": d.get("id")}, d["init"]]})
     n_guarded = 0
     for a in asg:
         var = strip_all(a["c"][0]).get("n", "").split("::")[-1]
-        gs = [(Rw.r(c), pol) for c, pol in [g_ for g_ in Sw.guards(a) if g_[0] != "switch"]]
+        gs = [(Rw.r(c), pol) for g_ in Sw.guards(a.get("_stmt", a)) if g_[0] != "switch"
+              for c, pol in _split_guard(g_[0], g_[1])]
         if not gs:
             continue
         n_guarded += 1
